@@ -19,7 +19,10 @@
 (*   swap n    exchange element n with its next sibling element             *)
 (*   retarget n  (ref nodes) point the reference at: "missing" (no such     *)
 (*             id), "self" (the nearest enclosing element carrying an id /  *)
-(*             a name), "other" (the target of the next reference)          *)
+(*             a name), "other" (the target of the next reference),         *)
+(*             "ancestor" (the outermost enclosing element below the root   *)
+(*             carrying an id / a name: the item definition a nested        *)
+(*             component belongs to, the decision a requirement belongs to) *)
 (***************************************************************************)
 EXTENDS Naturals, Sequences
 
@@ -35,14 +38,14 @@ CountAttrs(nodes, n, k) == IF k <= Len(nodes) /\ nodes[k].k = "a" /\ nodes[k].d 
 Attrs(nodes, n) == CountAttrs(nodes, n, n + 1)             \* number of attributes of element n
 NextSibling(nodes, n) == LET k == Last(nodes, n) + 1 IN IF k <= Len(nodes) /\ nodes[k].d = nodes[n].d /\ nodes[k].k = "e" THEN k ELSE 0
 
-FaultKinds == {"del", "dup", "empty", "swap", "missing", "self", "other"}
+FaultKinds == {"del", "dup", "empty", "swap", "missing", "self", "other", "ancestor"}
 FaultEnabled(nodes, f, n) ==
   /\ n >= 1 /\ n <= Len(nodes)
   /\ CASE f = "del" -> TRUE
        [] f = "dup" -> TRUE
        [] f = "empty" -> (nodes[n].k = "e" /\ Size(nodes, n) > 1 + Attrs(nodes, n)) \/ nodes[n].k = "a"
        [] f = "swap" -> nodes[n].k = "e" /\ NextSibling(nodes, n) # 0
-       [] f \in {"missing", "self", "other"} -> nodes[n].ref
+       [] f \in {"missing", "self", "other", "ancestor"} -> nodes[n].ref
        [] OTHER -> FALSE
 
 \* number of nodes of the document after the fault; 0 - 1 when the result is not well-formed XML
